@@ -28,6 +28,19 @@ type Options struct {
 	Parenthesis bool // include the parenthesis count of expressions
 	// ExpandedTrees follows the Tree field of Extends, Import and Render nodes.
 	ExpandedTrees bool
+	// SkipAnnotations leaves out what the type checker adds to a tree: Upvars,
+	// IR fields and reflect types.
+	SkipAnnotations bool
+}
+
+// IsAnnotation reports whether a dump line lies in a type checker annotation.
+func IsAnnotation(l Line) bool {
+	return strings.Contains(l.Path, ".Upvars") || strings.Contains(l.Path, ".IR.") || strings.HasSuffix(l.Path, ".Reflect") || strings.Contains(l.Path, ".Reflect.")
+}
+
+// IsZero reports whether a dump line holds a zero value (nil, 0, empty).
+func IsZero(l Line) bool {
+	return strings.HasPrefix(l.Val, "nil") || l.Val == "0" || l.Val == "false" || l.Val == `""`
 }
 
 // Line is one leaf of a dump.
@@ -153,6 +166,9 @@ func (d *dumper) walk(v reflect.Value, path, owner string) {
 		}
 		for i := 0; i < t.NumField(); i++ {
 			f := t.Field(i)
+			if d.opt.SkipAnnotations && (f.Name == "Upvars" || f.Name == "IR" || f.Name == "Reflect") {
+				continue
+			}
 			if f.Type == treePtrType && !d.opt.ExpandedTrees {
 				if v.Field(i).IsNil() {
 					d.emit(path+"."+f.Name, t.Name()+"."+f.Name, "nil *ast.Tree")
@@ -248,7 +264,7 @@ func Reachable(root ast.Node, expandedTrees bool) []NodeRef {
 			}
 			for i := 0; i < t.NumField(); i++ {
 				f := t.Field(i)
-				if !f.IsExported() || f.Name == "IR" {
+				if !f.IsExported() || f.Name == "IR" || f.Name == "Upvars" {
 					continue
 				}
 				if f.Type == treePtrType && !expandedTrees {
